@@ -74,9 +74,35 @@ def run(ctx, res):
         c.update(n=n, A=np.ascontiguousarray(drex.rotations(rng, n, "random")), f=rng.dirichlet(np.ones(n)), regime=4 if n % 2 else 6,
                  kinds=("random", f"n={n}", c["kinds"][2]))
         cases.append(c)
+    # extreme magnitudes of the velocity gradient ("all finite velocity gradients"): the rates only involve activity RATIOS, so
+    # nothing may under- or overflow on the way; predicates only (the Float model is not asked to reproduce overflow behaviour)
+    extreme = []
+    rng_x = np.random.default_rng(ctx["seed"] + 3030)
+    for k in range(16 if not ctx["thorough"] else 200):
+        c = drex.make_case(rng_x, k, nmax=4)
+        if c["kinds"][0] == "nonorth":
+            c["A"] = np.ascontiguousarray(drex.rotations(rng_x, c["n"], "random"))
+        sgn = 1 if k % 2 else -1
+        s_ = float(10.0 ** (sgn * rng_x.uniform(85, 290)))
+        c.update(L=c["L"] * s_, D=c["D"] * s_, kinds=(c["kinds"][0], c["kinds"][1], f"{c['kinds'][2]}*1e{int(np.log10(s_))}"))
+        extreme.append(c)
     drex.variant_checks(res, rng, ctx, "total")
     outs_int = [drex.call_derivatives(c) for c in cases]
-    outs_jit = drex.run_jit(cases + ([big] if ctx["thorough"] else []))
+    outs_jit = drex.run_jit(cases + extreme + ([big] if ctx["thorough"] else []))
+    if ctx["thorough"]:
+        ob_big = outs_jit.pop()
+    outs_x = outs_jit[len(cases):]
+    outs_jit = outs_jit[:len(cases)]
+    if ctx["thorough"]:
+        outs_jit.append(ob_big)
+    for c, oj_ in zip(extreme, outs_x):
+        res.evaluations += 1
+        res.count("extreme_magnitude:1e%+d" % (100 * int(np.sign(np.log10(np.abs(c["L"]).max())))))
+        res.nontrivial(("extreme", c["A"].tobytes(), c["L"].tobytes()))
+        if np.isfinite(c["L"]).all():
+            with np.errstate(all="ignore"):
+                _predicates(res, c, drex.call_derivatives(c), "interpreted,extreme magnitude")
+            _predicates(res, c, oj_, "jit,extreme magnitude")
     if ctx["thorough"]:
         ob = outs_jit.pop()
         res.evaluations += 1
